@@ -678,7 +678,11 @@ func (b *blk) judge(p *plan, tx *types.Transaction, rc *types.Receipt, tr *trace
 				// inner transfer) disappeared
 				sub = "existing_empty_account_deleted"
 			}
-			c.ViolateInput(clause, op, sub, where+fmt.Sprintf(": account %s %s -> %s although execution failed", a.Hex(), describeAcct(x0, ok0), describeAcct(x1, ok1)), wit)
+			vop := op
+			if sub == "existing_empty_account_deleted" {
+				vop = "tx" // the same shape whether the outer frame is a call or a creation
+			}
+			c.ViolateInput(clause, vop, sub, where+fmt.Sprintf(": account %s %s -> %s although execution failed", a.Hex(), describeAcct(x0, ok0), describeAcct(x1, ok1)), wit)
 		}
 		// the sender and coinbase change in nothing but nonce / balance
 		for _, a := range []common.Address{S, C} {
